@@ -113,6 +113,7 @@ type Knobs struct {
 	ManifestPutNoLocation bool
 	DeleteBlob     bool
 	NoRangeOnJSON  bool // manifests and listings ignore Range (as most real registries do)
+	MountDeclineFrom string // mounts whose source repository starts with this prefix are declined (per-repository permissions)
 }
 
 // Reg is one registry host.
@@ -511,6 +512,8 @@ func (g *Reg) uploads(req *simnet.Request, repo, id string, q url.Values) *simne
 			from := q.Get("from")
 			granted := false
 			switch {
+			case g.K.MountDeclineFrom != "" && strings.HasPrefix(from, g.K.MountDeclineFrom):
+				// declined for this source repository only
 			case g.K.Mount == 0 && from != "":
 				if src := g.Repos[from]; src != nil {
 					if b, ok := src.Blobs[md]; ok {
